@@ -56,9 +56,13 @@ def pred_kind(ctx, res, closure_term):
     return 'unknown:' + (fmt(cps[0].ret)[:80] if cps else '?')
 
 
-def search_spec(ctx, res, t):
+def search_spec(ctx, res, t, whole_only=False, loops=None):
     """priority list of slot predicates of an index expression built from position / or_else / or"""
     t = strip_transparent(t)
+    if loops:
+        nxt = loop_search_site(t)
+        if nxt is not None:
+            return [loops.get(nxt[3], 'unknown-loop')]
     if t[0] == 'field' and t[2] == '0' and t[1][0] == 'downcast':
         t = strip_transparent(t[1][1])
     if t[0] == 'call' and t[1].split('::')[-1] in ('position', 'find'):
@@ -72,6 +76,8 @@ def search_spec(ctx, res, t):
             while isinstance(src, tuple) and src[0] in ('ref', 'deref', 'cast'):
                 src = src[1]
             whole = src[0] == 'field' and src[2] in ('nodes', '_ref__self__nodes') and not find_calls(it, '::index')
+        if whole_only:
+            return ['whole'] if whole else ['not-over-all-slots']
         return [pred_kind(ctx, res, t[2][1]) if whole else 'not-over-all-slots']
     if t[0] == 'call' and t[1].endswith('::or_else'):
         first = search_spec(ctx, res, t[2][0])
@@ -91,12 +97,86 @@ def search_spec(ctx, res, t):
     return ['unknown:' + fmt(t)[:60]]
 
 
+def loop_search_site(t):
+    """`i` of `for (i, n) in self.nodes.iter().enumerate()`: returns the next() call of that loop, else None"""
+    t = strip_transparent(t)
+    if not (isinstance(t, tuple) and len(t) == 3 and t[0] == 'field' and t[2] == '0'):
+        return None
+    e = strip_transparent(t[1])
+    if not (isinstance(e, tuple) and len(e) == 3 and e[0] == 'field' and e[2] == '0' and isinstance(e[1], tuple) and e[1][0] == 'downcast' and e[1][2] == 'Some'):
+        return None
+    nxt = strip_transparent(e[1][1])
+    if not (isinstance(nxt, tuple) and nxt[0] == 'call' and nxt[1].split('::')[-1] == 'next'):
+        return None
+    it = strip_transparent(nxt[2][0])
+    while isinstance(it, tuple) and it and it[0] in ('ref', 'deref'):
+        it = strip_transparent(it[1])
+    while isinstance(it, tuple) and it and it[0] == 'call' and it[1].split('::')[-1] == 'into_iter':
+        it = strip_transparent(it[2][0])
+    if not (isinstance(it, tuple) and it[0] == 'call' and it[1].split('::')[-1] == 'enumerate'):
+        return None
+    inner = it[2][0]
+    if search_spec(None, None, ('call', 'x::position', (inner, None), None), whole_only=True) != ['whole']:
+        return None
+    return nxt
+
+
+def loop_searches(ctx, sym):
+    """explicit first-match loops over all slots: {next-call site: kind}.  The loop must do nothing but test one slot
+    predicate per iteration, go on when it fails and leave the loop when it holds."""
+    sym.loop_info()
+    kinds = {}
+    direct_status = False
+    for p in sym.paths:
+        for c in p.conds:
+            lit = literal(c)
+            if not (lit[0] == 'variant' and isinstance(lit[1], tuple) and lit[1][0] == 'call' and lit[1][1].split('::')[-1] == 'next' and option_is_some(lit[2]) is True):
+                continue
+            nxt = lit[1]
+            elem_i = ('field', ('field', ('downcast', nxt, 'Some'), '0'), '0')
+            if loop_search_site(elem_i) is None:
+                continue
+            site = nxt[3]
+            comp = sym._loop_of_head.get(c[2]) or next((cm for h, cm in sym._loop_of_head.items() if c[2] in cm), None)
+            if not comp:
+                continue
+            inloop = [x for x in p.conds if x[2] in comp and x is not c]
+            kind = None
+            holds = None
+            if len(inloop) == 1:
+                l2 = literal(inloop[0])
+                st = status_atom(ctx, l2, lambda call: 'as Some).0.1' in fmt(call[2][0]) and nxt in list(lib.term_walk(call)))
+                if st is not None:
+                    if st == {'Bad'}:
+                        kind, holds = 'bad', True
+                    elif st == set(STATUS) - {'Bad'}:
+                        kind, holds = 'bad', False
+                elif l2[0] == 'lt' and isinstance(l2[1], tuple) and l2[1][0] == 'call' and l2[1][1] == 'node::Node::status' and nxt in list(lib.term_walk(l2[1])) \
+                        and isinstance(l2[2], tuple) and l2[2][0] == 'call' and l2[2][1] == 'node::Node::status' and is_param(strip_transparent(l2[2][2][0]), 'new_node') and l2[3] is not None:
+                    kind, holds = 'lower', bool(l2[3])
+                    direct_status = True
+            if kind is None:
+                kinds[site] = 'unknown-loop'
+                continue
+            in_loop_effects = [e for e in p.effects if e[0] == 'write' or (e[0] == 'call' and e[3] in comp and e[1] and e[1].split('::')[-1] not in ('status', 'next', 'iter', 'enumerate', 'into_iter', 'eq', 'ne', 'lt', 'gt', 'le', 'ge', 'clone'))]
+            if holds is False:
+                ok = p.end == 'loop' and not [e for e in in_loop_effects if e[0] == 'call'] and not [e for e in p.effects if e[0] == 'write']
+            else:
+                ok = p.end != 'loop'
+            if not ok or kinds.get(site, kind) != kind:
+                kinds[site] = 'unknown-loop'
+            else:
+                kinds.setdefault(site, kind)
+    return kinds, direct_status
+
+
 def rule_bucket_add(ctx, res):
     b = ctx.body(ADD)
     res.touch(b)
     s = Sym(b)
     s.run()
     res.paths += len(s.paths)
+    loops, direct_status = loop_searches(ctx, s)
     d = status_values(ctx)
     derived = {im['trait'] for im in ctx.f.impls if im['self_ty'] == 'node::NodeStatus' and im['derived']}
     res.check(d['Bad'] < d['Questionable'] < d['Good'] and 'std::cmp::PartialOrd' in derived, 'TYPE', 'node::NodeStatus', 'status order Bad < Questionable < Good (derived PartialOrd, declaration order)', detail=str(d))
@@ -114,7 +194,10 @@ def rule_bucket_add(ctx, res):
                 bad_new = (st == {'Bad'})
                 continue
             rel, a, b2, truth = lit
-            if rel == 'variant' and a[0] == 'call':
+            if rel == 'variant' and a[0] == 'call' and a[1].split('::')[-1] == 'next' and a[3] in loops:
+                if option_is_some(b2) is False:
+                    none_searches.append(loops[a[3]])
+            elif rel == 'variant' and a[0] == 'call':
                 spec = search_spec(ctx, res, a)
                 if option_is_some(b2) is False:
                     none_searches.extend(spec)
@@ -166,7 +249,7 @@ def rule_bucket_add(ctx, res):
             ok_st = False
             why = 'store is not nodes[i] = new_node'
             continue
-        spec = search_spec(ctx, res, place[2])
+        spec = search_spec(ctx, res, place[2], loops=loops)
         if 'same' not in none_searches:
             ok_st = False
             why = 'replacement reachable without the same-node search having failed (duplicates possible)'
@@ -184,7 +267,7 @@ def rule_bucket_add(ctx, res):
     for body in ctx.f.body_list:
         if body.path.startswith(ADD + '::{closure') and body.kind == 'closure':
             pass
-    caps_ok = False
+    caps_ok = direct_status
     for p in s.paths:
         for e in p.effects:
             if e[0] == 'call' and e[1] and (e[1].endswith('::or_else') or e[1].endswith('::position')):
